@@ -97,8 +97,8 @@ strictly increase within a unit and units do not overlap. -/
 def IsEntry (recs : List Rec) (x : Off) : Prop := ∃ r, r ∈ recs ∧ r.off = x
 /-- the user asked for `x` -/
 def Required (recs : List Rec) (x : Off) : Prop := ∃ r, r ∈ recs ∧ r.off = x ∧ r.e.required = true
-/-- the property's relations: `x` keeps `y` if `y` is referenced by `x` (attribute, expression,
-location list — as far as the code records them), is the parent of `x`, or is a member-like child
+/-- the property's relations: `x` keeps `y` if `y` is referenced by `x` (attribute, any expression
+operation incl. nested ones, any location-list entry), is the parent of `x`, or is a member-like child
 of the non-namespace entry `x` -/
 def Dep (recs : List Rec) (x y : Off) : Prop := DepOwn recs x y ∨ DepChild recs x y
 
@@ -126,8 +126,7 @@ theorem reachable_iff_closure (m : Mode) (units : List (UnitHdr × List Entry)) 
       exact .step ih ⟨l, hl, (G.edges _ l hl _).2 he⟩ ((G.keys _).2 hv)
 
 /-- **`closure_exact`** — the offsets reserved by the filter are exactly the least set that
-contains the required entries and is closed under "parent of", "referenced by (recorded
-references)" and "member-like child of a non-namespace entry": nothing is missing and nothing that
+contains the required entries and is closed under "parent of", "referenced by" and "member-like child of a non-namespace entry": nothing is missing and nothing that
 is not connected to a required entry by such a chain is kept. For ALL forests, reference graphs
 and required sets. -/
 theorem closure_exact (m : Mode) (units : List (UnitHdr × List Entry)) (d : Deps) (out : List Off)
@@ -139,8 +138,9 @@ theorem closure_exact (m : Mode) (units : List (UnitHdr × List Entry)) (d : Dep
 /-- **`closure_props`** — the clauses of the property, for every record `r` of the section:
 1. a required entry is kept;
 2. the parent of a kept entry is kept (hence all its ancestors);
-3. every recorded reference of a kept entry (attribute, expression operation, location-list
-   entry the cooked iterator yields) whose target is a DIE is kept;
+3. every reference of a kept entry (attribute, expression operation — `DW_OP_implicit_pointer`,
+   `DW_OP_GNU_variable_value` and operations nested in `DW_OP_entry_value` included —, every raw
+   location-list entry) whose target is a DIE is kept;
 4. every member-like child (`has_die_back_edge`) of a kept entry whose tag is not
    `DW_TAG_namespace` is kept;
 5. everything kept is in the closure of the required entries (nothing unconnected). -/
@@ -178,20 +178,6 @@ theorem closure_props (m : Mode) (units : List (UnitHdr × List Entry)) (d : Dep
 
 /-! ## no dangling reference -/
 
-/-- the attribute carries only reference kinds that `add_attribute_refs`/`add_expression_refs`
-record: no `DW_OP_implicit_pointer`, `DW_OP_GNU_variable_value`, nothing nested in
-`DW_OP_entry_value`, and every location-list entry is one the cooked iterator yields -/
-def opRecorded : OpRef → Bool
-  | .unitRef _ => true
-  | .infoRef _ => true
-  | _ => false
-
-def attrRecorded : AttrRef → Bool
-  | .unitRef _ => true
-  | .infoRef _ => true
-  | .expr ops => ops.all opRecorded
-  | .loclist locs => locs.all (fun l => l.1 && l.2.all opRecorded)
-
 /-- `entry_ids` of the unfiltered conversion: every root and every DIE -/
 def allIds (units : List (UnitHdr × List Entry)) : List Off :=
   units.map (·.1.rootOff) ++ (records units).map Rec.off
@@ -202,16 +188,21 @@ def keptIds (units : List (UnitHdr × List Entry)) (out : List Off) : List Off :
 
 /-- **`no_dangling_partial`** — for a kept entry, an attribute that the unfiltered conversion can
 convert (all its references resolve in the full `entry_ids`) is converted by the filtered
-conversion too: every reference to a DIE targets a kept DIE, so `convert_unit_ref` /
-`convert_debug_info_ref` never fail for a missing entry and `write()` never meets a reserved but
-unwritten id. PARTIAL: the hypothesis `attrRecorded a` excludes `DW_OP_implicit_pointer`,
-`DW_OP_GNU_variable_value`, references nested in `DW_OP_entry_value` and location-list entries with a
-tombstone/empty/inverted range; for those the code records no edge and the statement is false
-(recorded findings C19-1, C19-2: `implicit_pointer_counterexample`, `skipped_loc_counterexample`). -/
+conversion too: every reference to a DIE — from the attribute itself, from any operation of its
+expression (`DW_OP_implicit_pointer`, `DW_OP_GNU_variable_value` and operations nested in
+`DW_OP_entry_value` included) or from any entry of its location list (entries the cooked iterator
+skips included) — targets a kept DIE, so `convert_unit_ref` / `convert_debug_info_ref` never fail
+for a missing entry and `write()` never meets a reserved but unwritten id.
+FULL STRENGTH for every entry other than the unit root: since the fixes 6341b4d / 34014b9 (former
+findings C19-1, C19-2) no hypothesis on the kind of reference is needed
+(`implicit_pointer_regression`, `skipped_loc_regression`). PARTIAL with respect to the property
+clause only because the records range over the DIEs the filter reads: the attributes of the unit
+root DIE, which `FilterUnit::new` skips, are not covered and the statement is false for them
+(recorded finding C19-3: `root_ref_counterexample`). -/
 theorem no_dangling_partial (m : Mode) (units : List (UnitHdr × List Entry)) (d : Deps) (out : List Off)
     (hb : buildDeps m units = .ok d) (hr : getReachable d = .ok out) (hd : Distinct units)
     (r : Rec) (hrec : r ∈ records units) (hk : r.off ∈ out)
-    (a : AttrRef) (ha : a ∈ r.e.attrs) (hrecorded : attrRecorded a = true)
+    (a : AttrRef) (ha : a ∈ r.e.attrs)
     (hfull : convAttr (allIds units) r.unit a = none) :
     convAttr (keptIds units out) r.unit a = none := by
   obtain ⟨_, _, C3, _, _⟩ := closure_props m units d out hb hr hd
@@ -235,30 +226,29 @@ theorem no_dangling_partial (m : Mode) (units : List (UnitHdr × List Entry)) (d
     intro val hsub h
     rw [convInfoRef_none] at h ⊢
     exact keep _ hsub h
-  have hop : ∀ (ops : List OpRef), ops.all opRecorded = true →
+  have hop : ∀ (ops : List OpRef),
       (∀ o, o ∈ ops → ∀ t, t ∈ opDeps r.unit o → t ∈ attrDeps r.unit a) →
       firstErr (ops.map (convOp (allIds units) r.unit)) = none →
       firstErr (ops.map (convOp (keptIds units out) r.unit)) = none := by
-    intro ops hall hsub h
+    intro ops hsub h
     rw [firstErr_none] at h ⊢
     intro x hx
     simp only [List.mem_map] at hx
     obtain ⟨o, ho, hx⟩ := hx
     have h1 := h (convOp (allIds units) r.unit o) (List.mem_map.2 ⟨o, ho, rfl⟩)
-    have hrec1 := List.all_eq_true.1 hall o ho
     subst hx
     cases o with
     | unitRef val => exact hu val (fun t ht => hsub _ ho t (by simpa [opDeps] using ht)) h1
     | infoRef val => exact hi val (hsub _ ho val (by simp [opDeps])) h1
-    | ignoredInfoRef val => simp [opRecorded] at hrec1
-    | nestedUnitRef val => simp [opRecorded] at hrec1
-    | nestedInfoRef val => simp [opRecorded] at hrec1
+    | implicitRef val => exact hi val (hsub _ ho val (by simp [opDeps])) h1
+    | nestedUnitRef val => exact hu val (fun t ht => hsub _ ho t (by simpa [opDeps] using ht)) h1
+    | nestedInfoRef val => exact hi val (hsub _ ho val (by simp [opDeps])) h1
   cases a with
   | unitRef val => exact hu val (fun t ht => by simpa [attrDeps] using ht) hfull
   | infoRef val => exact hi val (by simp [attrDeps]) hfull
   | expr ops =>
     simp only [convAttr] at hfull ⊢
-    exact hop ops hrecorded (fun o ho t ht => by
+    exact hop ops (fun o ho t ht => by
       simp only [attrDeps]; exact List.mem_flatMap.2 ⟨o, ho, ht⟩) hfull
   | loclist locs =>
     simp only [convAttr] at hfull ⊢
@@ -267,19 +257,15 @@ theorem no_dangling_partial (m : Mode) (units : List (UnitHdr × List Entry)) (d
     simp only [List.mem_map] at hx
     obtain ⟨l, hl, hx⟩ := hx
     subst hx
-    have hl1 := List.all_eq_true.1 hrecorded l hl
-    simp only [Bool.and_eq_true] at hl1
-    refine hop l.2 hl1.2 ?_ (hfull _ (List.mem_map.2 ⟨l, hl, rfl⟩))
+    refine hop l.2 ?_ (hfull _ (List.mem_map.2 ⟨l, hl, rfl⟩))
     intro o ho t ht
     simp only [attrDeps]
-    refine List.mem_flatMap.2 ⟨l, hl, ?_⟩
-    simp only [hl1.1, if_true]
-    exact List.mem_flatMap.2 ⟨o, ho, ht⟩
+    exact List.mem_flatMap.2 ⟨l, hl, List.mem_flatMap.2 ⟨o, ho, ht⟩⟩
 
 /-- **`conversion_monotone`** — reference resolution is monotone in `entry_ids`: an attribute that
 the filtered conversion (fewer ids) converts is converted by the unfiltered one as well, so
 filtering can only turn a convertible attribute into a `ConvertError`, never the reverse; together
-with `no_dangling_partial` the two conversions agree on every recorded attribute of a kept entry. -/
+with `no_dangling_partial` the two conversions agree on every attribute of a kept (non-root) entry. -/
 theorem conversion_monotone (ids ids' : List Off) (hsub : ∀ x, x ∈ ids → x ∈ ids') (u : UnitHdr)
     (a : AttrRef) (h : convAttr ids u a = none) : convAttr ids' u a = none := by
   have hu : ∀ val, convUnitRef ids u val = none → convUnitRef ids' u val = none := by
@@ -291,7 +277,7 @@ theorem conversion_monotone (ids ids' : List Off) (hsub : ∀ x, x ∈ ids → x
     cases o with
     | unitRef v => exact hu v h
     | infoRef v => exact hi v h
-    | ignoredInfoRef v => exact hi v h
+    | implicitRef v => exact hi v h
     | nestedUnitRef v => exact hu v h
     | nestedInfoRef v => exact hi v h
   have hops : ∀ ops : List OpRef, firstErr (ops.map (convOp ids u)) = none →
@@ -384,6 +370,76 @@ theorem pipeline_total (m : Mode) (units : List (UnitHdr × List Entry)) (ras : 
   refine ⟨d, out, hb, hr, hE, hres, ?_⟩
   simp only [run, hb, hr, hres]
   cases convertUnits _ units ras <;> rfl
+
+/-- **`run_correct`** — the whole Model pipeline (`run`: filter pass, `get_reachable`, reservation
+by unit, conversion with skipping) on a well-formed section whose entries lie below the root and
+never share an offset with a unit root: the outcome is never a panic or fuel exhaustion; it is
+either a `ConvertError` raised by reference resolution, or `converted parts us` where
+`parts` are exactly the closure offsets of each unit (the least set containing the required entries
+and closed under parent / reference / member-like child of a non-namespace entry, sorted) and `us`
+lists, per unit, exactly those entries in read order, each with the parent it has in the input
+(the unit root for top-level entries). For ALL forests, reference graphs, required sets, modes. -/
+theorem run_correct (m : Mode) (units : List (UnitHdr × List Entry)) (ras : List (List AttrRef))
+    (wf : WellFormed units)
+    (hdepth : ∀ ue, ue ∈ units → ∀ e, e ∈ ue.2 → 0 < e.depth)
+    (hroot : ∀ r, r ∈ records units → ∀ ue, ue ∈ units → r.off ≠ ue.1.rootOff) :
+    ∃ out : List Off, (∀ x, x ∈ out ↔ Closure (records units) x) ∧ out.Pairwise (· < ·) ∧
+      ((∃ e, run m units ras = .convErr e) ∨
+       run m units ras =
+        .converted ((units.map (·.1)).map (fun u => out.filter u.containsOff))
+          (units.map (fun ue => filterLinks
+            (units.map (·.1.rootOff) ++ ((units.map (·.1)).map (fun u => out.filter u.containsOff)).flatten)
+            ue.1 [] ue.2))) := by
+  obtain ⟨d, out, hb, hr, hE, _, hrun⟩ := pipeline_total m units ras wf
+  refine ⟨out, hE, (reachable_nodup_sorted d out hr).2.2, ?_⟩
+  rw [hrun]
+  generalize hids : (units.map (·.1.rootOff) ++
+    ((units.map (·.1)).map (fun u => out.filter u.containsOff)).flatten) = ids
+  cases hc : convertUnits ids units ras with
+  | error e => exact Or.inl ⟨e, rfl⟩
+  | ok us =>
+    right
+    simp only
+    congr 1
+    apply convertUnits_links ids units ras us _ hc
+    -- membership in the id table, for offsets of entries
+    have hcover : ∀ o, o ∈ out → ∃ u, u ∈ units.map (·.1) ∧ u.containsOff o = true := by
+      intro o ho
+      obtain ⟨r, hrec, hoff⟩ := ((hE o).1 ho).valid'
+      obtain ⟨ue, hue, hu, he⟩ := records_mem units r hrec
+      refine ⟨ue.1, List.mem_map_of_mem hue, ?_⟩
+      rw [← hoff, Rec.off, hu]
+      exact containsOff_entry ue.1 r.e.off (wf.inside ue hue r.e he)
+    have hflat : ∀ x, x ∈ ((units.map (·.1)).map (fun u => out.filter u.containsOff)).flatten ↔ x ∈ out := by
+      intro x
+      rw [List.mem_flatten]
+      constructor
+      · rintro ⟨l, hl, hx⟩
+        obtain ⟨u, _, hl⟩ := List.mem_map.1 hl
+        subst hl
+        exact (List.mem_filter.1 hx).1
+      · intro hx
+        obtain ⟨u, hu, hc⟩ := hcover x hx
+        exact ⟨_, List.mem_map.2 ⟨u, hu, rfl⟩, List.mem_filter.2 ⟨hx, hc⟩⟩
+    obtain ⟨_, C2, _, _, _⟩ := closure_props m units d out hb hr wf.distinct
+    intro ue hue
+    refine ⟨hdepth ue hue, ?_⟩
+    intro ep hep hin p hp
+    -- the record of this entry
+    have hrec : (⟨ue.1, ep.1, ep.2⟩ : Rec) ∈ records units := by
+      simp only [records, List.mem_flatMap]
+      exact ⟨ue, hue, by simp only [unitRecs, List.mem_map]; exact ⟨ep, hep, rfl⟩⟩
+    have hkept : ue.1.base + ep.1.off ∈ out := by
+      rw [← hids] at hin
+      simp only [List.contains_iff_mem, List.mem_append, List.mem_map] at hin
+      rcases hin with ⟨ve, hve, hroot'⟩ | hin
+      · exact (hroot _ hrec ve hve hroot'.symm).elim
+      · exact (hflat _).1 hin
+    have hpar : ue.1.base + p.off ∈ out :=
+      C2 ⟨ue.1, ep.1, ep.2⟩ hrec hkept (ue.1.base + p.off) (by simp only [Rec.parentOff, hp])
+    rw [← hids]
+    simp only [List.contains_iff_mem, List.mem_append]
+    exact Or.inr ((hflat _).2 hpar)
 
 /-! ## the tag tables regenerated from the Rust source -/
 
@@ -496,39 +552,42 @@ example : run .debug exForest =
     .converted [[15, 23, 31], [65]] [[(15, some 11), (23, some 15), (31, some 23)], [(65, some 61)]] := by
   decide
 example : (buildDeps .release exForest).isOk = true := by decide
+/-- … and of `run_correct` -/
+example : ∀ r, r ∈ records exForest → ∀ ue, ue ∈ exForest → r.off ≠ ue.1.rootOff := by decide
+example : ∀ ue, ue ∈ exForest → ∀ e, e ∈ ue.2 → 0 < e.depth := by decide
+
 example : WellFormed exForest := ⟨by unfold Distinct; decide, by decide, by decide⟩
-/-- `attrRecorded` holds of ordinary attributes … -/
-example : attrRecorded (.loclist [(true, [.unitRef 23, .infoRef 65])]) = true := by decide
 /-- … and `partition_by_unit`'s hypotheses hold for the example's units and result -/
 example : [(⟨0, 11, 36⟩ : UnitHdr), ⟨50, 11, 20⟩].Pairwise (fun u v => u.endOff ≤ v.base) := by decide
 
 example : (convertEntries [11, 15, 23, 31, 65] ⟨0, 11, 36⟩ [(0, 11)] exUnit0 []).toOption =
     some (filterLinks [11, 15, 23, 31, 65] ⟨0, 11, 36⟩ [] exUnit0) := by decide
 
-/-- recorded finding C19-1: a required subprogram (`15`) whose location expression has a
-`DW_OP_implicit_pointer` to the root-level variable `23`: the filter records no edge, `23` is not
-reserved, and the conversion of the kept entry fails although the unfiltered conversion succeeds -/
+/-- former finding C19-1 (repaired by 6341b4d): a required subprogram (`15`) whose location
+expression has a `DW_OP_implicit_pointer` to the root-level variable `23`, which nothing else keeps -/
 def exImplicitPointer : List (UnitHdr × List Entry) :=
   [ (⟨0, 11, 20⟩,
-      [ ⟨15, 1, false, 0x2e, false, [.expr [.ignoredInfoRef 23]], true⟩,
+      [ ⟨15, 1, false, 0x2e, false, [.expr [.implicitRef 23, .nestedUnitRef 23]], true⟩,
         ⟨23, 1, false, 0x34, false, [], false⟩ ]) ]
 
-theorem implicit_pointer_counterexample :
-    run .debug exImplicitPointer = .convErr .invalidDebugInfoRef ∧
-    (convertUnits (allIds exImplicitPointer) exImplicitPointer []).toBool = true := by decide
+/-- **`implicit_pointer_regression`** — the repaired filter records the edge: `23` is reserved and
+the filtered conversion succeeds (it used to end in `InvalidDebugInfoRef`) -/
+theorem implicit_pointer_regression :
+    run .debug exImplicitPointer = .converted [[15, 23]] [[(15, some 11), (23, some 11)]] := by decide
 
-/-- recorded finding C19-2: the same with a `DW_OP_call4` inside a location-list entry whose range
-is inverted (`begin > end`): `LocListIter` skips the entry, `LocationList::from` converts it -/
+/-- former finding C19-2 (repaired by 34014b9): the same with a `DW_OP_call4` inside a location-list
+entry whose range is inverted (`begin > end`), which the cooked `LocListIter` skips -/
 def exSkippedLoc : List (UnitHdr × List Entry) :=
   [ (⟨0, 11, 20⟩,
       [ ⟨15, 1, false, 0x2e, false, [.loclist [(false, [.unitRef 23])]], true⟩,
         ⟨23, 1, false, 0x34, false, [], false⟩ ]) ]
 
-theorem skipped_loc_counterexample :
-    run .debug exSkippedLoc = .convErr .invalidUnitRef ∧
-    (convertUnits (allIds exSkippedLoc) exSkippedLoc []).toBool = true := by decide
+/-- **`skipped_loc_regression`** — the repaired filter walks the raw entries: `23` is reserved and
+the filtered conversion succeeds (it used to end in `InvalidUnitRef`) -/
+theorem skipped_loc_regression :
+    run .debug exSkippedLoc = .converted [[15, 23]] [[(15, some 11), (23, some 11)]] := by decide
 
-/-- recorded finding C19-3: the unit root DIE (always converted) references the DIE `15`, which
+/-- recorded finding C19-3 (open): the unit root DIE (always converted) references the DIE `15`, which
 nothing else keeps: `FilterUnit::new` skips the root's attributes, so no edge is recorded, and the
 conversion of the root fails although the unfiltered conversion succeeds -/
 def exRootRef : List (UnitHdr × List Entry) :=
